@@ -19,10 +19,10 @@ DOCUMENTED = {
 }
 # sites that no input can reach, one reason each
 INFEASIBLE = {
-    "opparse.Parser.process:raise AssertionError('Invalid operator ordering')": "the order is a difference of finite priorities or +/-inf (never NaN: the both-None case returns 'done' first), so one of >0, <0, ==0 holds",
+    "opparse.Parser.process:raise AssertionError when [order != 'done', order != 0, order <= 0, order >= 0]": "the order is a difference of finite priorities or +/-inf (never NaN: the both-None case returns 'done' first), so one of >0, <0, ==0 holds",
     "selector._resolve:inspect.getfullargspec(real_fn)": "raises TypeError for a callable that is not a Python function: the documented outcome for objects that cannot be instrumented",
     "opparse.ASTNode.__init__:assert nonnulls": "finalize() only builds a node from parts that contain at least one operator token",
-    "selector._find_eval_env:raise AssertionError('Unreachable outside ptera.')": "the frame walk always ends in the caller's frame, which is outside the skipped modules",
+    "selector._find_eval_env:raise AssertionError when []": "the frame walk always ends in the caller's frame, which is outside the skipped modules",
     "selector.dict_resolver.resolve:getattr(tag_factory, x[1:])": "_TagFactory.__getattr__ creates the tag on demand and never raises",
 }
 
@@ -383,7 +383,8 @@ def run(repo, chk):
             elif isinstance(n, ast.Raise) and n.exc is not None:
                 c = cg.raised_class(n, fi)
                 if c not in ALLOWED:
-                    site = (c, norm(n)[:90])
+                    # keyed by class and path condition, not by the wording of the message
+                    site = (c, f"raise {c} when [{', '.join(sorted(conds(n, fi.node)))}]")
             if site is None:
                 continue
             cls, text = site
